@@ -602,6 +602,63 @@ func main() {
 		}
 	}
 
+	// sqlize.go: the fmt.Sprintf calls of the version statements (template method + argument list, in source order)
+	type vcall struct {
+		fn, tpl string
+		args    []string
+	}
+	var versionCalls []vcall
+	{
+		file, err := parser.ParseFile(fset, filepath.Join(*repo, "sqlize.go"), nil, 0)
+		if err != nil {
+			fail("parse sqlize.go: %v", err)
+		}
+		for _, d := range file.Decls {
+			fn, ok := d.(*ast.FuncDecl)
+			if !ok || (fn.Name.Name != "migrationUpVersion" && fn.Name.Name != "migrationDownVersion") {
+				continue
+			}
+			ast.Inspect(fn.Body, func(n ast.Node) bool {
+				call, ok := n.(*ast.CallExpr)
+				if !ok {
+					return true
+				}
+				sel, ok := call.Fun.(*ast.SelectorExpr)
+				if !ok || sel.Sel.Name != "Sprintf" || len(call.Args) == 0 {
+					return true
+				}
+				tcall, ok := call.Args[0].(*ast.CallExpr)
+				if !ok {
+					fail("%s: Sprintf format is not a template method call", fn.Name.Name)
+				}
+				tsel, ok := tcall.Fun.(*ast.SelectorExpr)
+				if !ok {
+					fail("%s: Sprintf format is not a template method call", fn.Name.Name)
+				}
+				vc := vcall{fn: fn.Name.Name, tpl: tsel.Sel.Name}
+				for _, a := range call.Args[1:] {
+					switch x := a.(type) {
+					case *ast.Ident:
+						vc.args = append(vc.args, x.Name)
+					case *ast.SelectorExpr:
+						if id, ok := x.X.(*ast.Ident); ok {
+							vc.args = append(vc.args, id.Name+"."+x.Sel.Name)
+						} else {
+							fail("%s: unsupported Sprintf argument", fn.Name.Name)
+						}
+					default:
+						fail("%s: unsupported Sprintf argument", fn.Name.Name)
+					}
+				}
+				versionCalls = append(versionCalls, vc)
+				return true
+			})
+		}
+		if len(versionCalls) == 0 {
+			fail("no version statements found in sqlize.go")
+		}
+	}
+
 	var b strings.Builder
 	b.WriteString("/-\n  GENERATED by /verif/harness/cmd/factgen from /repo's working tree — do not edit.\n")
 	b.WriteString("  Everything in the code that is *data*: statement templates per dialect, string constants, the action enum,\n  package-level variables with the functions that assign them, `go` statements.\n-/\n")
@@ -665,6 +722,15 @@ func main() {
 		qp = append(qp, fmt.Sprintf("(%s, %v)", leanStr(x.fn), x.ok))
 	}
 	fmt.Fprintf(&b, "/-- (Parser function, the parse call and its `return err` precede the first edit of the model) -/\ndef parseBeforeEdit : List (String × Bool) := [%s]\n\n", strings.Join(qp, ", "))
+	qvc := []string{}
+	for _, v := range versionCalls {
+		as := []string{}
+		for _, a := range v.args {
+			as = append(as, leanStr(a))
+		}
+		qvc = append(qvc, fmt.Sprintf("(%s, %s, [%s])", leanStr(v.fn), leanStr(v.tpl), strings.Join(as, ", ")))
+	}
+	fmt.Fprintf(&b, "/-- (function, template method, Sprintf arguments) of the version statements in sqlize.go, in source order -/\ndef versionCalls : List (String × String × List String) := [%s]\n\n", strings.Join(qvc, ", "))
 	b.WriteString("end Sqlize.Facts\n")
 
 	if *out == "" {
